@@ -74,11 +74,15 @@ def plan(tier: str, seed: int):
     return [(r, i, g) for r in range(len(RANGES)) for i in IMPLS for g in AGGRS]
 
 
+LAMBDA_IMPLICATION = "lambda: degree^2 * membership"  # a user-defined, NON-commutative implication (NormLambda)
+
+
 def ref_membership(alpha, aset, impl: str, aggr: str, x: float) -> float:
     y = 0.0
     for t, d in aset:
         cls, p = alpha[t]
-        y = RN.compute(aggr, y, RN.compute(impl, d, RT.membership(cls, p, 1.0, x)))
+        mu = RT.membership(cls, p, 1.0, x)
+        y = RN.compute(aggr, y, d * d * mu if impl == LAMBDA_IMPLICATION else RN.compute(impl, d, mu))
     return y
 
 
@@ -89,7 +93,7 @@ class Ctx:
         self.alpha = term_alphabet(self.a, self.b)
         self.terms = [make_term(cls, f"t{k}", p, 1.0) for k, (cls, p) in enumerate(self.alpha)]
         self.impl_name, self.aggr_name = impl, aggr
-        self.impl = getattr(fl, impl)()
+        self.impl = fl.NormLambda(lambda a, b: a * a * b) if impl == LAMBDA_IMPLICATION else getattr(fl, impl)()
         self.aggr = getattr(fl, aggr)()
         self.defuzz = {}
 
@@ -115,7 +119,7 @@ def check_midpoints(acc: Acc, a: float, b: float, r: int):
         return None
     xs = [float(v) for v in x]
     for i, (g, w) in enumerate(zip(xs, want)):
-        if abs(g - w) > 4 * math.ulp(max(abs(a), abs(b), 1.0)):
+        if g != g or abs(g - w) > 4 * math.ulp(max(abs(a), abs(b), 1.0)):
             acc.violate("midpoints", {}, {**case, "index": i}, w, g, f"Op.midpoints({a},{b},{r})[{i}] = {g!r}, expected {w!r}")
             break
     return xs
@@ -291,6 +295,31 @@ def run_shard(tier: str, seed: int, shard):
                 acc.guard(case, check_set, acc, ctx, aset, r, xs)
                 if k in (1, 2) and r in (4, 16):
                     acc.guard(case, check_translation, acc, ctx, ctx2, aset, r, 1.0)
+    # special ranges and a user-defined implication (first range's shards only; sets of 0..1 terms x a few resolutions)
+    if rng_idx == 0:
+        specials = []
+        for a, b in ((0.0, 1e306), (-8e307, 8e307), (-1e306, 1e306)):  # finite ranges whose width times the resolution overflows:
+            for r in (1, 10, 1000):                                         # the sample points are still the finite midpoints
+                check_midpoints(acc, a, b, r)
+                acc.cls("special_ranges")
+        z = Ctx(0, impl, aggr)  # a range of zero width: every sample point is that point
+        z.a, z.b = 2.0, 2.0
+        z.alpha = [("Rectangle", [1.0, 3.0]), ("Triangle", [1.0, 2.0, 3.0]), ("Trapezoid", [1.0, 1.5, 2.5, 3.0]), ("Ramp", [1.0, 3.0]), ("Ramp", [3.0, 1.0]),
+                   ("Sigmoid", [2.0, 8.0]), ("Gaussian", [2.0, 0.5]), ("Rectangle", [5.0, 6.0]), ("Triangle", [1.5, 2.0, 2.5]), ("Gaussian", [1.0, 0.5])]
+        z.terms = [make_term(cls, f"t{k}", p, 1.0) for k, (cls, p) in enumerate(z.alpha)]
+        specials.append((z, (1, 2, 4, 16)))
+        if impl == "Minimum":
+            specials.append((Ctx(0, LAMBDA_IMPLICATION, aggr), (4, 16)))
+        for c, rs in specials:
+            for r in rs:
+                sx = check_midpoints(acc, c.a, c.b, r)
+                if sx is None:
+                    continue
+                for k in (0, 1) + ((2,) if c.impl_name == LAMBDA_IMPLICATION else ()):
+                    for aset in sets_of(k, tier):
+                        case = {"range": [c.a, c.b], "set": [list(x) for x in aset], "implication": c.impl_name, "aggregation": aggr, "resolution": r, "special": True}
+                        acc.guard(case, check_set, acc, c, aset, r, sx)
+                        acc.cls("special_ranges")
     # memberships that are positive but within the library comparison tolerance (1e-3) of zero
     tiny_atoms = [(t, d) for t in range(10) for d in (2.0**-12, 2.0**-11)]
     for k in (1, 2):
@@ -346,6 +375,18 @@ def replay(case: dict):
     a, b = case["range"]
     shift = 0.0
     rng_idx = next((i for i, (x, y) in enumerate(RANGES) if x == a and y == b), None)
+    if "set" not in case:  # a midpoints-only case (also the ranges of huge magnitude)
+        check_midpoints(acc, float(a), float(b), case["resolution"])
+        return acc.violations
+    if case.get("special") and (a, b) == (2.0, 2.0):
+        z = Ctx(0, case.get("implication", "Minimum"), case.get("aggregation", "Maximum"))
+        z.a, z.b = 2.0, 2.0
+        z.alpha = [("Rectangle", [1.0, 3.0]), ("Triangle", [1.0, 2.0, 3.0]), ("Trapezoid", [1.0, 1.5, 2.5, 3.0]), ("Ramp", [1.0, 3.0]), ("Ramp", [3.0, 1.0]),
+                   ("Sigmoid", [2.0, 8.0]), ("Gaussian", [2.0, 0.5]), ("Rectangle", [5.0, 6.0]), ("Triangle", [1.5, 2.0, 2.5]), ("Gaussian", [1.0, 0.5])]
+        z.terms = [make_term(cls, f"t{k}", p, 1.0) for k, (cls, p) in enumerate(z.alpha)]
+        xs = check_midpoints(acc, 2.0, 2.0, case["resolution"])
+        acc.guard(case, check_set, acc, z, tuple((int(t), float(d)) for t, d in case["set"]), case["resolution"], xs)
+        return acc.violations
     if rng_idx is None:
         rng_idx = next(i for i, (x, y) in enumerate(RANGES) if x + 1.0 == a)
         shift = 1.0
